@@ -179,23 +179,38 @@ theorem reachable_wf (ds : List (Decl V)) (ops : List (Op V)) :
         cases d.labelnames.isEmpty <;> simp
       · exact ih hs m hm
 
-/-- **F7 in the model**: `Counter(…, labelnames).reset()` on the labelled parent raises AttributeError and changes
-nothing -/
-theorem f7_reset_on_labelled_parent (m : Metric V) (hk : m.decl.kind = .counter) (hl : m.decl.labelnames ≠ [])
-    (hs : m.single = none) : stepCall m .none .reset = (m, .raised .attributeError) := by
+/-- the full statement, for a source tree in which both methods start with `self._raise_if_not_observable()` (the
+repair of F7): then no shape is excluded -/
+theorem rejected_iff_of_repaired (h1 : counterResetChecksObservable = true) (h2 : infoChecksObservable = true)
+    (m : Metric V) (hwf : m.single.isSome = m.decl.labelnames.isEmpty) (addr : Addr) (act : Action V) :
+    (stepCall m addr act).2 = .raised .valueError ↔ RejectedCall m.decl addr act := by
+  apply rejected_iff_partial m hwf addr act
+  cases addr with
+  | labels a k => exact fun h => h
+  | none =>
+    intro ⟨_, hs⟩
+    cases hk : m.decl.kind <;> cases act <;> simp [skipsObservableCheck, hk, h1, h2] at hs
+
+/-- **F7 in the model**: as long as `Counter.reset` does not start with `self._raise_if_not_observable()` (`hsrc`,
+true of the tree the finding was made on — see `Example.f7_status`), `Counter(…, labelnames).reset()` on the labelled
+parent raises AttributeError (and changes nothing) -/
+theorem f7_reset_on_labelled_parent (hsrc : counterResetChecksObservable = false) (m : Metric V)
+    (hk : m.decl.kind = .counter) (hl : m.decl.labelnames ≠ []) (hs : m.single = none) :
+    stepCall m .none .reset = (m, .raised .attributeError) := by
   have hl' : m.decl.labelnames.isEmpty = false := by simpa using hl
-  have h2 := parentCall_attributeError m.decl (.reset : Action V) (by rw [hk]; rfl)
+  have h2 := parentCall_attributeError m.decl (.reset : Action V) (by rw [hk]; simp [skipsObservableCheck, hsrc])
   have h1 := callMethod_none m.decl false (.reset : Action V)
   simp only [stepCall, hs, hl']
   rw [Prod.ext_iff]
   exact ⟨by cases m; simp_all, h2⟩
 
-/-- **F7 in the model**: `Info(…, labelnames).info(val)` on the labelled parent raises AttributeError whatever `val` -/
-theorem f7_info_on_labelled_parent (m : Metric V) (hk : m.decl.kind = .info) (hl : m.decl.labelnames ≠ [])
-    (hs : m.single = none) (val : List (Str × Option Str)) :
+/-- **F7 in the model**: likewise `Info(…, labelnames).info(val)` on the labelled parent raises AttributeError,
+whatever `val` -/
+theorem f7_info_on_labelled_parent (hsrc : infoChecksObservable = false) (m : Metric V) (hk : m.decl.kind = .info)
+    (hl : m.decl.labelnames ≠ []) (hs : m.single = none) (val : List (Str × Option Str)) :
     stepCall m .none (.info val) = (m, .raised .attributeError) := by
   have hl' : m.decl.labelnames.isEmpty = false := by simpa using hl
-  have h2 := parentCall_attributeError m.decl (.info val : Action V) (by rw [hk]; rfl)
+  have h2 := parentCall_attributeError m.decl (.info val : Action V) (by rw [hk]; simp [skipsObservableCheck, hsrc])
   have h1 := callMethod_none m.decl false (.info val : Action V)
   simp only [stepCall, hs, hl']
   rw [Prod.ext_iff]
@@ -476,7 +491,19 @@ rejected, the keyword call reached the same child) -/
 example :
     (run (Reg.fresh decls) (ops.take 1 ++ ops.drop 2)).2 = [.ok, .raised .valueError, .ok, .ok, .ok] := by decide
 
-example : (step (Reg.fresh decls) (.call 0 .none .reset)).2 = .raised .attributeError := by decide   -- F7
+/-- **F7, kernel-checked on the concrete registry**: with the source as it is (`…ChecksObservable = false`) the model
+raises AttributeError for `reset()` on the labelled counter and for `info({})` on a labelled Info; were the methods
+repaired, it would raise ValueError.  (Stated for both values so that the repair does not break the build.) -/
+theorem f7_status :
+    (counterResetChecksObservable = false →
+        (step (Reg.fresh decls) (.call 0 .none .reset)).2 = .raised .attributeError) ∧
+      (counterResetChecksObservable = true →
+        (step (Reg.fresh decls) (.call 0 .none .reset)).2 = .raised .valueError) ∧
+      (infoChecksObservable = false →
+        (step (Reg.fresh [(⟨['i'], .info, [['l']]⟩ : Decl Int)]) (.call 0 .none (.info []))).2 = .raised .attributeError) ∧
+      (infoChecksObservable = true →
+        (step (Reg.fresh [(⟨['i'], .info, [['l']]⟩ : Decl Int)]) (.call 0 .none (.info []))).2 = .raised .valueError) := by
+  decide
 example : (step (Reg.fresh decls) (.call 0 .none (.inc 1))).2 = .raised .valueError := by decide
 
 /-- `rejected_is_frame` / `rejected_iff_partial`: a raising step on a non-trivial registry -/
